@@ -195,6 +195,19 @@ CLAIMED["C19"] = dict(
          "known findings.",
     note=TB + "Exploration over 6 (quick) / 48 (thorough) process configurations and one alternative tensor-name configuration; the un-renaming of tensor names is harness glue.")
 
+CLAIMED["C11"] = dict(
+    category="translation_validation", design="DESIGN.md §4 C11",
+    technique="Lean 4 theorem for substituting a registered definition for an intermediate tensor (expandAt_sound) + per-run validation: input and output of expand_intermediates / factor_intermediates / reduce_expr are both expanded by the proved model steps and compared by the proved checker checkEquiv; fraction changes become per-run Lean field identities",
+    text="expandAt (Lean model) replaces one intermediate tensor of a term by its registered definition (formal indices -> actual ones, "
+         "summed indices renamed to fresh ones; all side conditions decidable and checked). expandAt_sound: in every model in which the "
+         "intermediate tensor equals the value of its definition (DefHolds) the expansion has the value of the term, for all target "
+         "assignments, Hamiltonians and free tensors; expandAt_free: no new free index. The definitions are exported from the running "
+         "code. For every explored expression the code's input and output are expanded by sequences of these proved steps and must be "
+         "accepted by checkEquiv as equal; multiplied-out denominators / cancelled brackets / cancel_orb_energy_frac inside "
+         "reduce_expr give Lean obligations (ring / field identities over any field of characteristic 0, brackets non-zero) proved in "
+         "the same run. One genuine defect repaired (fix:). Inputs are sampled.",
+    note=TB + "Trusted glue: choice of the definition by tensor name + index spaces, numerator distribution and monic brackets (harness), the obligation generator. Residual intermediates (shared symbol 'Zero') and occurrences with repeated actual indices are not covered; RuntimeError refusals of the factorisation are counted, not judged.")
+
 PENDING = {
 }
 
